@@ -319,3 +319,45 @@ Proof.
     rewrite Hg. exact Hnw. }
   rewrite Ha. discriminate.
 Qed.
+
+(* ---------------------------------------------------------------- tags that are not recognised *)
+
+Lemma kstep_unknown known e x o : unknown_tag known o = true ->
+  kstep known e x o = Err (unknown_tag_error (view (xd x)) o) /\ kstep_total known e x o = x.
+Proof. intro H. unfold kstep_total, kstep. rewrite H. split; reflexivity. Qed.
+
+Lemma kstep_known known e x o : unknown_tag known o = false ->
+  kstep known e x o = xstep e x o /\ kstep_total known e x o = xstep_total e x o.
+Proof. intro H. unfold kstep_total, kstep, xstep_total. rewrite H. split; reflexivity. Qed.
+
+Lemma kstep_total_err known e x o k : kstep known e x o = Err k -> kstep_total known e x o = x.
+Proof. unfold kstep_total. intros ->. reflexivity. Qed.
+
+(* a history is worth the history without the commands whose tag is not recognised *)
+Lemma krun_recognised known e os : forall x, krun known e x os = xrun e x (recognised known os).
+Proof.
+  induction os as [|o os IH]; intro x; [reflexivity|].
+  cbn [krun fold_left recognised filter]. fold (krun known e (kstep_total known e x o) os).
+  fold (recognised known os). destruct (unknown_tag known o) eqn:E; cbn [negb].
+  - rewrite (proj2 (kstep_unknown known e x o E)). apply IH.
+  - cbn [xrun fold_left]. fold (xrun e (xstep_total e x o) (recognised known os)).
+    rewrite (proj2 (kstep_known known e x o E)). apply IH.
+Qed.
+
+(* a sibling of a stack: the path of the stack followed by a character other than the slash is not below it *)
+Lemma str_eqb_app_cons (p : str) c r : str_eqb (p ++ c :: r) p = false.
+Proof.
+  induction p as [|a p IH]; cbn; [reflexivity|]. destruct (ascii_eqb a a); [exact IH|reflexivity].
+Qed.
+
+Lemma starts_with_sibling (p : str) c r : ascii_eqb "/"%char c = false -> starts_with (p ++ slash) (p ++ c :: r) = false.
+Proof.
+  intro H. induction p as [|a p IH].
+  - change (starts_with ["/"%char] (c :: r) = false). cbn [starts_with]. rewrite H. reflexivity.
+  - cbn [app starts_with]. destruct (ascii_eqb a a); [exact IH|reflexivity].
+Qed.
+
+Lemma is_subpath_sibling (root : str) c r : ascii_eqb "/"%char c = false -> is_subpath (root ++ c :: r) root = false.
+Proof.
+  intro H. unfold is_subpath. rewrite str_eqb_app_cons, (starts_with_sibling root c r H). reflexivity.
+Qed.
